@@ -69,6 +69,18 @@ class SymStr:
         return f'<symstr {self.name or self.segs}>'
 
 
+class FreeCons:
+    """value of an external free constructor call such as ast.Call(func=..., args=[...]): name + keyword fields"""
+    __slots__ = ('name', 'fields')
+
+    def __init__(self, name, fields):
+        self.name = name
+        self.fields = fields
+
+    def __repr__(self):
+        return f'<{self.name} {sorted(self.fields)}>'
+
+
 class RegexV:
     __slots__ = ('pattern',)
 
